@@ -1,4 +1,6 @@
 CONSTANTS
+  NParts = 1
+  Part = 0
   NConns = 1
   NUp = 2
   NDown = 2
@@ -10,6 +12,7 @@ CONSTANTS
   StdinClose = FALSE
   Mode = "copy"
   DialFails = FALSE
+  SfScripted = TRUE
   EnvLite = FALSE
   AsIs_Spin = FALSE
   AsIs_SharedConfig = FALSE
